@@ -296,6 +296,12 @@ fn check_const(idx: u64, kind: Kind, regs: &Regs, csrc: &str, acc: &mut Acc) {
     if m.errors.is_empty() && (m.value == "2147483647" || m.value == "-2147483647") {
         acc.count("int_exactly_max_without_error");
     }
+    if csrc.contains('`') && !csrc.is_ascii() {
+        acc.count("alphabetic_constant_non_ascii");
+    }
+    if csrc.contains('\n') {
+        acc.count("constant_spans_an_end_of_line");
+    }
     let lower = csrc.to_ascii_lowercase();
     for (u, c) in [("pt", "unit_pt"), ("pc", "unit_pc"), ("in", "unit_in"), ("bp", "unit_bp"), ("cm", "unit_cm"), ("mm", "unit_mm"), ("dd", "unit_dd"), ("cc", "unit_cc"), ("sp", "unit_sp"), ("em", "unit_em"), ("ex", "unit_ex"), ("true", "unit_true"), ("fil", "unit_fil")] {
         if lower.contains(u) {
@@ -389,6 +395,65 @@ fn check_const(idx: u64, kind: Kind, regs: &Regs, csrc: &str, acc: &mut Acc) {
         }
     }
 }
+/// The constant is the last thing of the input: `\<kind>0=<csrc>` <end of input>, then a second source
+/// prints the register. Judged (value, left-over text, error raised) when the model never asks for a token
+/// beyond the end-of-line space of the last line; otherwise what TeX does depends on input that does not
+/// exist, and only "no panic" is required.
+fn check_const_eof(idx: u64, kind: Kind, csrc: &str, acc: &mut Acc) {
+    acc.eval();
+    let regs = default_regs();
+    let k = kind.name();
+    let first = format!("{PREAMBLE}{}\\{k}0={csrc}", regs_src(&regs));
+    let second = format!("\\relax|\\the\\{k}0|");
+    let case = || json!({"kind": "const-eof", "target": k, "constant": csrc, "program": first, "second": second});
+    // the last line ends with its end-of-line character (a space token unless the lexer is skipping blanks)
+    let Ok(toks) = lex(&format!("{csrc}\n"), &regs) else {
+        acc.skipped += 1;
+        return;
+    };
+    let mut sc = Scanner::new(toks);
+    sc.em = 12 * 65536;
+    sc.ex = 12 * 65536;
+    let value = match kind {
+        Kind::Count => sc.scan_int().to_string(),
+        Kind::Dimen => format!("{}pt", arith::print_scaled(sc.scan_dimen(false, None).0)),
+        Kind::Skip => scanum::print_spec(&sc.scan_glue()),
+    };
+    let decided = !sc.hit_end && !sc.undefined && !sc.errors.iter().any(|e| matches!(e, ScanError::MissingNumber | ScanError::ImproperAlpha | ScanError::IllegalUnit));
+    let rest = if decided { sc.rest_text() } else { None };
+    acc.nontrivial();
+    acc.count(if decided { "constant_complete_at_end_of_input" } else { "constant_cut_off_by_end_of_input" });
+    let r = catch(|| {
+        let mut vm = vtex::new_vm();
+        let a = vtex::run(&mut vm, &first);
+        let errs = vm.state.env.errs.get();
+        let b = vtex::run(&mut vm, &second);
+        (a, errs, b)
+    });
+    match r {
+        Err(p) => {
+            acc.class(&format!("DISAGREE panic at {}", p.source_line()));
+            acc.fail(idx, case(), "no panic", p.describe(), "the VM panicked on a constant at the end of the input");
+        }
+        Ok((a, errs, b)) => {
+            let (Some(rest), true) = (rest, decided) else {
+                acc.class("constant cut off by the end of the input: no panic");
+                return;
+            };
+            let want = format!("{rest:?} then {:?} errors>0: {}", format!("|{value}|"), !sc.errors.is_empty());
+            let got_rest = a.out.strip_suffix(' ').unwrap_or(&a.out).to_string();
+            // the end-of-line space of the last line is typeset unless the scanner consumed it
+            let rest_trim = rest.strip_suffix(' ').unwrap_or(&rest).to_string();
+            let got_val = b.out.strip_suffix(' ').unwrap_or(&b.out).to_string();
+            if a.err.is_none() && b.err.is_none() && got_rest == rest_trim && got_val == format!("|{value}|") && ((errs > 0) == !sc.errors.is_empty()) {
+                acc.class("agree (constant at the end of the input)");
+            } else {
+                acc.class("DISAGREE constant at the end of the input");
+                acc.fail(idx, case(), want, format!("{:?} then {:?} errors={errs} fatal={:?}/{:?}", a.out, b.out, a.err, b.err), "value / left-over text / error presence differ for a constant that ends the input");
+            }
+        }
+    }
+}
 fn program(kind: Kind, regs: &Regs, csrc: &str) -> String {
     let k = kind.name();
     format!("{PREAMBLE}{}\\{k}0={csrc}\\relax|\\the\\{k}0|", regs_src(regs))
@@ -420,7 +485,7 @@ const BASE_UNITS: [&str; 11] = ["pt", "pc", "in", "bp", "cm", "mm", "dd", "cc", 
 fn all_units() -> Vec<&'static str> {
     let mut v: Vec<&'static str> = BASE_UNITS.to_vec();
     v.extend([
-        " pt", "\\s\\s pt", "\\s cm", "PT", "Pt", "truept", "true pt", "true\\s\\s mm", " true cm", "TRUE in", "truesp", "trueem", "true", "xy", "", " ", "p t", "pt ", "pt  ", "pt\\s\\s ", "em ", "\\dimen1 ", " \\dimen1 ", "\\count1 ", "\\skip1 ", "fil", "mu", "\\b c", "\\s\\b m",
+        " pt", "\\s\\s pt", "\\s cm", "PT", "Pt", "truept", "true pt", "true\\s\\s mm", " true cm", "TRUE in", "truesp", "trueem", "true", "xy", "", " ", "p t", "pt ", "pt  ", "pt\\s\\s ", "em ", "\\dimen1 ", " \\dimen1 ", "\\count1 ", "\\skip1 ", "fil", "mu", "\\b c", "\\s\\b m", "pt→", "pt\n", "pt%\n", "pt \n ", "\npt", "%\n pt",
     ]);
     v
 }
@@ -430,7 +495,7 @@ fn int_parts() -> Vec<&'static str> {
         "", "0", "1", "7", "00019", "16383", "16384", "1073741823", "1073741824", "2147483647", "2147483648", "99999999999999999999", "\\d ", "1\\d ",
         "'0", "'7", "'37777", "'40000", "'7777777777", "'10000000000", "'17777777777", "'20000000000", "'8", "'",
         "\"FG", "'78", "\"0", "\"7", "\"3FFF", "\"4000", "\"3FFFFFFF", "\"40000000", "\"7FFFFFFF", "\"80000000", "\"a", "\"A", "\"",
-        "`a", "`1", "`\\q ", "`\\b ", "`\\relax ",
+        "`a", "`1", "`\\q ", "`\\b ", "`\\relax ", "`é", "`→", "`𝔸", "`\\→", "`\u{10FFFF}", "16385", "1073741825",
         "\\count1 ", "\\dimen1 ", "\\skip1 ",
     ]
 }
@@ -1289,6 +1354,41 @@ fn main() {
             check_const(i, Kind::Count, &default_regs(), &src, acc);
         });
     }
+    // (b3') every sign string: all strings over {+, -, space} up to a length, in front of every kind of body
+    {
+        let maxlen = ctx.pick(3u32, 5);
+        let n_signs = vcore::strings_upto(3, maxlen);
+        let bodies: [(Kind, &str); 16] = [
+            (Kind::Count, "7"), (Kind::Count, "'7"), (Kind::Count, "\"7"), (Kind::Count, "`a"), (Kind::Count, "\\count1 "), (Kind::Count, "\\dimen1 "), (Kind::Count, "\\skip1 "), (Kind::Count, "2147483648"),
+            (Kind::Dimen, "7pt"), (Kind::Dimen, ".5pt"), (Kind::Dimen, "\\dimen1 "), (Kind::Dimen, "2\\skip1 "), (Kind::Dimen, "\\count1 sp"), (Kind::Dimen, "16384pt"),
+            (Kind::Skip, "\\skip1 "), (Kind::Skip, "1pt plus 2fil"),
+        ];
+        let rad = [n_signs, bodies.len() as u64, 2];
+        ctx.family("const-signs", &format!("every sign string over {{+, -, space}} of length <= {maxlen} ({n_signs}) x 16 bodies (decimal / octal / hex / alphabetic / internal count, dimen, skip as integer, dimension and glue; overflowing values) x {{as is, the same signs also in front of the stretch}}"), vcore::product(&rad), |i, acc| {
+            let d = vcore::digits(i, &rad);
+            let signs: String = vcore::nth_string(3, d[0]).into_iter().map(|x| ['+', '-', ' '][x as usize]).collect();
+            let (kind, body) = bodies[d[1] as usize];
+            let src = if d[2] == 1 && kind == Kind::Skip && body.contains("plus ") { format!("{signs}{}", body.replace("plus ", &format!("plus {signs}"))) } else if d[2] == 1 { format!("{signs}{body} ") } else { format!("{signs}{body}") };
+            let minus = signs.chars().filter(|c| *c == '-').count();
+            if minus >= 2 {
+                acc.count("sign_string_with_two_or_more_minus");
+            }
+            if signs.len() >= 3 && signs.contains(' ') {
+                acc.count("sign_string_len3_with_space");
+            }
+            check_const(i, kind, &default_regs(), &src, acc);
+        });
+    }
+    // (b3'') constants that end where the input ends (no token follows the last line)
+    {
+        let consts = ["1pt", "1pt ", "-1.5pt", "1", "1.", "1p", "-", "'", "`", "`a", "7", "'7", "\"7F", "\\count1 ", "\\dimen1 ", "\\skip1 ", "1\\dimen1 ", "1pt plus", "1pt plus 1fil", "1pt plus 1fi", "1pt plus 1fil minus 2fill", "16384pt", "2147483648", "1true", "1 truept", "1em"];
+        let kinds = [Kind::Count, Kind::Dimen, Kind::Skip];
+        let rad = [kinds.len() as u64, consts.len() as u64];
+        ctx.family("const-at-end-of-input", &format!("\\<count|dimen|skip>0=<c> as the last thing of the input ({} constants, complete and cut off at every stage), value read by a second source", consts.len()), vcore::product(&rad), |i, acc| {
+            let d = vcore::digits(i, &rad);
+            check_const_eof(i, kinds[d[0] as usize], consts[d[1] as usize], acc);
+        });
+    }
     // (b4) glue
     {
         let widths = ["0pt", "1pt", "-1.5pt ", "16384pt", "\\dimen1 ", "\\count1 pt", "-\\count1 sp", "\\skip1 ", "-\\skip1 ", "1", ".5\\dimen1 "];
@@ -1455,6 +1555,12 @@ fn main() {
     ctx.require("err_illegal_unit", "unknown unit");
     ctx.require("err_illegal_fil", "fillll");
     ctx.require("err_missing_number", "vacuous constant");
+    ctx.require("alphabetic_constant_non_ascii", "alphabetic constant of a 2-, 3- or 4-byte character");
+    ctx.require("constant_spans_an_end_of_line", "an end of line (or a comment) inside or right after a constant");
+    ctx.require("sign_string_with_two_or_more_minus", "sign string with several minus signs");
+    ctx.require("sign_string_len3_with_space", "sign string of three characters with an interior or leading space");
+    ctx.require("constant_complete_at_end_of_input", "a complete constant is the last thing of the input");
+    ctx.require("constant_cut_off_by_end_of_input", "the input ends inside a constant");
     ctx.require("nondecimal_constant_followed_by_fraction", "an octal / hex / alphabetic integer part directly followed by a decimal point and digits (judged precisely)");
     for u in ["unit_pt", "unit_pc", "unit_in", "unit_bp", "unit_cm", "unit_mm", "unit_dd", "unit_cc", "unit_sp", "unit_em", "unit_ex", "unit_true", "unit_fil"] {
         ctx.require(u, "the unit is exercised");
@@ -1478,6 +1584,7 @@ fn replay(case: &Value, acc: &mut Acc) {
     match case["kind"].as_str() {
         Some("print-scan") => check_print_scan(0, case["s"].as_i64().unwrap(), acc),
         Some("const") => check_const(0, Kind::from(case["target"].as_str().unwrap()), &regs_from(&case["regs"]), case["constant"].as_str().unwrap(), acc),
+        Some("const-eof") => check_const_eof(0, Kind::from(case["target"].as_str().unwrap()), case["constant"].as_str().unwrap(), acc),
         Some("arith") => check_arith(0, Kind::from(case["target"].as_str().unwrap()), Op::from(case["op"].as_str().unwrap()), case["a"].as_i64().unwrap(), case["b"].as_i64().unwrap(), VARIANTS.iter().find(|v| **v == case["variant"].as_str().unwrap()).unwrap(), acc),
         Some("glue-arith") => check_glue_arith(0, Op::from(case["op"].as_str().unwrap()), case["g"].as_u64().unwrap() as usize, case["rhs"].as_u64().unwrap() as usize, case["n"].as_i64().unwrap(), acc),
         Some("vm-roundtrip") => {
